@@ -258,6 +258,13 @@ func (g *G) atom(ctx ECtx, depth int) influxql.Expr {
 		g.feat("odd.duration-arith")
 		return &influxql.ParenExpr{Expr: &influxql.BinaryExpr{Op: op, LHS: d, RHS: rhs}}
 	}
+	if g.Opt.Odd && ctx == CtxCond && g.Rg.P(0.08) {
+		// comparison of two time-looking strings, well-formed or not
+		ts := []string{"2000-01-01T00:00:00Z", "2000-01-01", "2000-01-01 12:00:00", "2000-13-45T00:00:00Z", "2000-02-31", "2000-01-01T25:61:00Z", "2000-01-01x", "1677-09-21T00:12:43.145224193Z", "2262-04-11T23:47:16.854775807Z", "0000-00-00", "9999-12-31T23:59:59Z"}
+		op := []influxql.Token{influxql.EQ, influxql.NEQ, influxql.LT, influxql.LTE, influxql.GT, influxql.GTE, influxql.ADD, influxql.SUB}[g.Rg.Intn(8)]
+		g.feat("odd.time-strings")
+		return &influxql.ParenExpr{Expr: &influxql.BinaryExpr{Op: op, LHS: &influxql.StringLiteral{Val: ts[g.Rg.Intn(len(ts))]}, RHS: &influxql.StringLiteral{Val: ts[g.Rg.Intn(len(ts))]}}}
+	}
 	k := g.Rg.Intn(20)
 	if g.Opt.Simple {
 		k = g.Rg.Intn(4)
@@ -345,7 +352,7 @@ func (g *G) Call(ctx ECtx, depth int) *influxql.Call {
 		case k == 2:
 			c.Args = append(c.Args, &influxql.Distinct{Val: g.Name("f")})
 			g.feat("arg.distinct")
-		case k == 3 && depth > 0:
+		case (k == 3 || (g.Opt.Odd && k < 6)) && depth > 0:
 			c.Args = append(c.Args, g.Call(ctx, depth-1))
 			g.feat("arg.call")
 		default:
